@@ -13,6 +13,12 @@ Ties (all on the unmodified `uwg` package of the tree under test):
                  BEMDef/SchDef vectors included; `from_param_args` vs Lean `UWG.fromKwargs`.
   3. routes      kwargs / dict / JSON text / .uwg file / CLI (click runner, in process) -> 1-day
                  simulation -> byte-identical EPW files and equal hourly records.
+  4. stocks      (tie_stocks; generator in harness/t4_util.py) every kind of building stock the `bld` setter accepts
+                 - 1 .. 48 distinct (type, era) rows and more with repeats, sums of exactly one / inside the 1e-2
+                 tolerance / one ulp off, zero fractions - and some it refuses, through kwargs, dict, JSON text and
+                 .uwg files with the bld block laid out in 7 ways: one verdict, bld held == bld written, equal
+                 to_dict, equal generated model, byte-identical EPW (file, `simulate param`) for a few members.
+                 The same family (long blocks, sums inside / outside the tolerance) is fed to tie 1.
 Oracles evaluated directly on the implementation: layout invariance of the parsed map; to_dict equal
 before/after from_dict and after a JSON text round trip; deep attribute equality of the custom reference
 objects; identical simulation output over all routes.
@@ -261,6 +267,18 @@ def gen_entries(rng, base, types):
             else:
                 val = rng.choice(['0.25', '0.5', '0', '1', '0.125']) if lk != 'flr_h' else \
                     rng.choice(['3.05', '3.5', '4'])
+        elif kind == 'bld' and rng.random() < 0.35:
+            # the stock family: up to 48 distinct (type, era) rows (a block longer than the 16 types), thousandths
+            # adding up to one, to a sum inside the setter tolerance (0.991 .. 1.009) or clearly outside it
+            n = rng.choice([1, 2, 3, 5, 12, 16, 17, 18, 25, 33, 48])
+            c = rng.random()
+            total = 1000 if c < 0.45 else rng.choice([985, 1015]) if c > 0.9 else \
+                rng.choice([x for x in range(991, 1010) if x != 1000])
+            pairs = rng.sample([(t, e) for t in sorted(types) for e in ('Pre80', 'Pst80', 'New')], n)
+            cuts = sorted(rng.sample(range(1, total), n - 1)) if n > 1 else []
+            parts = [b - a for a, b in zip([0] + cuts, cuts + [total])]
+            val = [[t, e, '%d' % (p // 1000) if p % 1000 == 0 else '%d.%03d' % (p // 1000, p % 1000)]
+                   for (t, e), p in zip(pairs, parts)]
         elif kind == 'bld' and rng.random() < 0.6:
             n = rng.choice([1, 2, 3, 4])
             cuts = sorted(rng.sample(range(1, 100), n - 1)) if n > 1 else []
@@ -338,6 +356,7 @@ def tie_reader(chk, uwg):
     bad = 0
     bad_zone = 0
     zones_seen = {}
+    stocks_seen = {}
     serial = [0]
 
     def run_text(lines, eol, final, tag, expect=None, raw=None):
@@ -378,6 +397,13 @@ def tie_reader(chk, uwg):
                                   'canonical')
             r1, f1, t1 = run_text(render(rng, var, dict(gaps=[0], deco=False)), '\n', True,
                                   'layout:shipped-case')
+            for kind_, _, val_ in var:
+                if kind_ == 'bld':
+                    tot_ = sum(F(r_[2]) for r_ in val_)
+                    k_ = '%s rows, sum %s' % ('1-16' if len(val_) <= 16 else '17-48',
+                                              '1' if tot_ == 1 else 'inside tolerance' if abs(tot_ - 1) < F(1, 100)
+                                              else 'outside tolerance')
+                    stocks_seen[k_] = stocks_seen.get(k_, 0) + 1
             zw = zone_written(var)
             if zw is not None and r0.startswith('ok'):
                 zones_seen[zw.upper()] = zones_seen.get(zw.upper(), 0) + 1
@@ -537,7 +563,9 @@ def tie_reader(chk, uwg):
                         '_read_input vs Lean readInput: exact equality of the parsed map (numbers as exact '
                         'decimals, None, text, bld triples, schedule cells) or of the error class; '
                         'layouts: permuted blocks, comments/blank lines between entries, key case, '
-                        'spaces, number spellings, LF/CRLF/CR, bld block last; malformed stream',
+                        'spaces, number spellings, LF/CRLF/CR, bld block last; stocks of 1 .. 48 rows (blocks longer '
+                        'than the 16 building types) whose thousandths add up to one, to 0.991 .. 1.009 (inside the '
+                        'setter tolerance) or to 0.985 / 1.015 (refused); malformed stream',
                    classify=cls)
     chk.correspond('from_param_file~fromFile', 'C06', file_cases,
                    rule='same files through the whole route (parse + PARAMETER_LIST loop of setters) vs '
@@ -551,7 +579,9 @@ def tie_reader(chk, uwg):
                'record as its canonical layout (exact); every malformed file ends within the watchdog; '
                'entry lists carry every one of the 18 zone names (7 and 8, which look like numbers, in 40%% '
                'of the varied lists) and the zone parsed / held by the model must be the zone written '
-               '(zones exercised: %s)' % ' '.join('%s:%d' % kv for kv in sorted(zones_seen.items())),
+               '(zones exercised: %s); stocks of the entry lists: %s' % (
+                   ' '.join('%s:%d' % kv for kv in sorted(zones_seen.items())),
+                   '; '.join('%s: %d' % kv for kv in sorted(stocks_seen.items()))),
                mismatches=bad + hangs + bad_zone)
     return bases
 
@@ -1464,6 +1494,228 @@ def tie_zone_names(chk, uwg, xtab):
                mismatches=bad)
 
 
+def uwg_text_layout(vals, plist, layout):
+    """a .uwg file for a parameter set with the bld block laid out as `layout` says (t4_util.BLOCK_LAYOUTS)"""
+    order = list(plist)
+    if layout.startswith('last') or layout.startswith('first'):
+        order.remove('bld')
+        order = ['bld'] + order if layout.startswith('first') else order + ['bld']
+    text = uwg_text(vals, order)
+    if layout.startswith('rows with'):
+        lines = text.split('\n')
+        i = lines.index('bld,')
+        for n in range(len(vals['bld'])):
+            lines[i + 1 + n] += ['', ',', ', # stock', ',,'][n % 4]
+        text = '\n'.join(lines)
+    if layout == 'last lines, no final newline':
+        text = text[:-1]
+    elif layout == 'last, followed by a comment line':
+        text += '# end of file\n'
+    elif layout == 'last, followed by a blank line and a comment':
+        text += '\n# end of file\n'
+    return text
+
+
+def tie_stocks(chk, uwg, xtab):
+    """Every kind of building stock the `bld` setter accepts - and a few it refuses - through every construction
+    route: one verdict, the fractions that were written, one generated model, one output."""
+    import t4_util as T
+    import uwgutil as U
+    from click.testing import CliRunner
+    from uwg.cli.simulate import simulate as cli_simulate
+    from uwg import utilities
+    UWG = uwg.UWG
+    rng = chk.rng
+    quick = chk.tier == 'quick'
+    work = chk.work()
+    types = set(utilities.REF_BLDTYPE_SET)
+    plist, kwnames, optional = xtab['plist'], xtab['kw'], xtab['oset']
+    epw = os.path.join(core.REPO, 'resources', 'SGP_Singapore.486980_IWEC.epw')
+    with quiet():
+        m0 = UWG.from_param_file(os.path.join(core.REPO, 'resources', 'initialize_singapore.uwg'), epw_path=epw)
+    base = {n: getattr(m0, n) for n in plist}
+    base['nday'], base['dtsim'] = 1, 300
+    base['zone'] = rng.choice(ZONES18)
+    d0 = m0.to_dict()
+    family = T.stock_family(rng, types, quick)
+    ncase = bad = 0
+    branches = {}
+    accepted = []
+
+    def fail(what, case, observed, expected):
+        nonlocal bad
+        bad += 1
+        if bad <= 3:
+            chk.violation('impl-violation', what, case=case, observed=observed, expected=expected)
+
+    for si, (label, rows, expect) in enumerate(family):
+        layout = T.BLOCK_LAYOUTS[si % len(T.BLOCK_LAYOUTS)] if rows else T.BLOCK_LAYOUTS[si % 2]
+        v = dict(base, bld=[tuple(r) for r in rows])
+        text = uwg_text_layout(v, plist, layout)
+        p = os.path.join(work, 'stock%d.uwg' % si)
+        with open(p, 'w', newline='') as f:
+            f.write(text)
+        dd = dict(copy.deepcopy(d0), bld=[list(r) for r in rows], nday=1, dtsim=300, zone=base['zone'])
+
+        def r_kwargs(name='sk.epw', out=work):
+            m = UWG.from_param_args(epw_path=epw, new_epw_dir=out, new_epw_name=name,
+                                    **{k: copy.deepcopy(v[k]) for k in kwnames})
+            for k in optional:
+                setattr(m, k, v[k])
+            return m
+        builders = [('kwargs', r_kwargs),
+                    ('dict', lambda: UWG.from_dict(copy.deepcopy(dd), epw_path=epw, new_epw_dir=work,
+                                                   new_epw_name='sd.epw')),
+                    ('json-text', lambda: UWG.from_dict(json.loads(json.dumps(dd)), epw_path=epw, new_epw_dir=work,
+                                                        new_epw_name='sj.epw')),
+                    ('uwg-file', lambda: UWG.from_param_file(p, epw, work, 'sf.epw'))]
+        case = {'stock': label, 'bld': [list(r) for r in rows], 'rows': len(rows), 'sum of the fractions as written':
+                repr(sum(r[2] for r in rows)), 'position of the bld block in the .uwg file': layout,
+                'other parameters': 'resources/initialize_singapore.uwg, nday 1, zone %s' % base['zone']}
+        if len(text) < 4000:
+            case['file'] = text
+        models, verdict = {}, {}
+        for rname, build in builders:
+            try:
+                with watchdog(30), quiet():
+                    models[rname] = build()
+                verdict[rname] = 'accepted'
+            except Hang:
+                verdict[rname] = 'hang'
+            except Exception as e:                                # noqa: BLE001
+                verdict[rname] = 'refused (%s: %s)' % (type(e).__name__, str(e)[:160])
+        ncase += 1
+        vs = {x.split(' ')[0] for x in verdict.values()}
+        key = '%s/%s' % ('rows>16' if len(rows) > 16 else 'rows<=16', '+'.join(sorted(vs)))
+        branches[key] = branches.get(key, 0) + 1
+        if len(vs) > 1:
+            fail('stock family: every route reaches the same verdict', case, verdict,
+                 'all routes accept the stock or all refuse it')
+            continue
+        if expect and vs != {'accepted' if expect == 'accept' else 'refused'}:
+            fail('stock family: verdict of the bld setter', case, verdict,
+                 'the documented rule (fractions in [0, 1], |sum - 1| < 1e-2): %s' % expect)
+            continue
+        if vs != {'accepted'}:
+            continue
+        # the stock held is the stock written; to_dict equal over the routes
+        ncase += 1
+        want = canon_num([list(r) for r in rows])
+        ref = canon_num(models['kwargs'].to_dict())
+        for rname, m in models.items():
+            held = canon_num([list(r) for r in m.bld])
+            if held != want:
+                got = [list(r) for r in m.bld]
+                k = next((i for i, (x, y) in enumerate(zip(got, rows)) if canon_num(list(x)) != canon_num(list(y))),
+                         min(len(got), len(rows)))
+                fail('stock family: the stock held by the model is the stock that was written', case,
+                     {'route': rname, 'rows held': len(got), 'first differing row': k,
+                      'held': got[k] if k < len(got) else None}, {'written': list(rows[k]) if k < len(rows) else None})
+                break
+            if canon_num(m.to_dict()) != ref:
+                fail('stock family: routes hold the same parameter values', case,
+                     {'route': rname, 'first difference': str(first_diff(
+                         json.loads(json.dumps(m.to_dict())), json.loads(json.dumps(models['kwargs'].to_dict())),
+                         strict=False))}, 'numerically equal to_dict')
+                break
+        else:
+            accepted.append((si, label, rows, v, p, dd, case, r_kwargs))
+            if quick and len(accepted) % 3 != 1:
+                continue
+            # one generated model: archetypes, shares, floor areas, digest of the whole initial state
+            ncase += 1
+            states = {}
+            for rname in (('kwargs', 'uwg-file') if quick else ('kwargs', 'dict', 'uwg-file')):
+                try:
+                    with watchdog(60), quiet():
+                        models[rname].generate()
+                    m = models[rname]
+                    states[rname] = ([(b.bldtype, b.builtera, float(b.frac).hex(), float(b.fl_area).hex())
+                                      for b in m.BEM], U.model_state(m))
+                except Exception as e:                            # noqa: BLE001
+                    states[rname] = ('generate() failed: %s: %s' % (type(e).__name__, str(e)[:160]), None)
+            for rname, st in states.items():
+                if st != states['kwargs']:
+                    a, b = st[0], states['kwargs'][0]
+                    if isinstance(a, list) and isinstance(b, list):
+                        k = next((i for i, (x, y) in enumerate(zip(a, b)) if x != y), None)
+                        obs = {'route': rname, 'archetypes': len(a), 'first differing archetype': a[k] if k is not None
+                               else 'none: (type, era, frac, fl_area) all equal, digest of the generated state differs'}
+                        exp = {'route': 'kwargs', 'archetypes': len(b), 'archetype': b[k] if k is not None else None}
+                    else:
+                        obs, exp = {'route': rname, 'result': str(a)[:300]}, {'route': 'kwargs', 'result': str(b)[:300]}
+                    fail('stock family: the generated model is the same on every route', case, obs, exp)
+                    break
+
+    # one output: simulate a few members on the keyword, file and CLI routes
+    def pick(pred):
+        c = [x for x in accepted if pred(x)]
+        return [rng.choice(c)] if c else []
+    sims = pick(lambda x: 'sum 0.99' in x[1] or 'sum 1.00' in x[1] or ('rows, sum' in x[1] and len(x[2]) <= 16)) + \
+        pick(lambda x: 16 < len(x[2]) <= 24) + pick(lambda x: 'zero' in x[1] or 'ulp' in x[1] or 'random' in x[1])
+    if not quick:
+        sims += [x for x in accepted if x not in sims and len(x[2]) <= 33][::3]
+    runner = CliRunner()
+    for si, label, rows, v, p, dd, case, r_kwargs in sims:
+        ncase += 1
+        outs = {}
+        for rname in (('kwargs', 'uwg-file', 'cli-param') if quick else ('kwargs', 'uwg-file', 'cli-param', 'cli-model')):
+            out = os.path.join(work, 'stock%d-%s' % (si, rname))
+            os.makedirs(out, exist_ok=True)
+            try:
+                with watchdog(600):
+                    if rname in ('kwargs', 'uwg-file'):
+                        with quiet():
+                            m = r_kwargs('out.epw', out) if rname == 'kwargs' else UWG.from_param_file(p, epw, out, 'out.epw')
+                            m.generate()
+                            m.simulate()
+                            m.write_epw()
+                        code = 0
+                    elif rname == 'cli-param':
+                        code = runner.invoke(cli_simulate, ['param', p, epw, '--new-epw-dir', out,
+                                                            '--new-epw-name', 'out.epw']).exit_code
+                    else:
+                        jp = os.path.join(out, 'model.json')
+                        with open(jp, 'w') as f:
+                            json.dump(dd, f)
+                        code = runner.invoke(cli_simulate, ['model', jp, epw, '--new-epw-dir', out,
+                                                            '--new-epw-name', 'out.epw']).exit_code
+                op = os.path.join(out, 'out.epw')
+                outs[rname] = open(op, 'rb').read() if code == 0 and os.path.exists(op) else 'exit code %s' % code
+            except Hang:
+                outs[rname] = 'hang'
+            except Exception as e:                                # noqa: BLE001
+                outs[rname] = '%s: %s' % (type(e).__name__, str(e)[:160])
+        branches['simulated'] = branches.get('simulated', 0) + 1
+        for rname, data in outs.items():
+            if data != outs['kwargs']:
+                if isinstance(data, bytes) and isinstance(outs['kwargs'], bytes):
+                    la, lb = data.split(b'\n'), outs['kwargs'].split(b'\n')
+                    obs = {'route': rname, 'differing EPW lines': sum(1 for x, y in zip(la, lb) if x != y),
+                           'first': str(next(((i, x[:120], y[:120]) for i, (x, y) in enumerate(zip(la, lb)) if x != y),
+                                             None))}
+                else:
+                    obs = {'route': rname, 'result': data if not isinstance(data, bytes) else 'EPW written',
+                           'kwargs': outs['kwargs'] if not isinstance(outs['kwargs'], bytes) else 'EPW written'}
+                fail('stock family: routes give byte-identical output', case, obs,
+                     'the EPW file of the keyword route, byte for byte')
+                break
+    chk.direct('stock-family(every bld the setter accepts, all routes)', ncase, ncase,
+               'building stocks of 1 .. 48 distinct (type, era) rows (1, 2, .., 16, 17, 18, 24, 30, .., 48) and 50 / 64 rows '
+               'with repeated pairs; fractions summing to one, to anything inside the setter tolerance (0.991 .. 1.009: '
+               '0.6 + 0.395, 3 x 0.333, 3 x 0.335, one row of 0.991, random thousandths, also over 17+ rows), one ulp off '
+               '(10 x 0.1, 3 x 1/3, normalised random floats), zero fractions, 1e-05; sums at and beyond the tolerance '
+               '(0.99, 1.01, 0.98, 1.02, 0.5, 2, 0, no rows). Each through from_param_args, from_dict, JSON text and a '
+               '.uwg file whose bld block is laid out in 7 ways (PARAMETER_LIST position, first, last with / without '
+               'final newline, followed by comment / blank line, rows with trailing cells): one verdict on all routes '
+               '(and the documented one away from the boundary); bld held == bld written, row for row; to_dict equal; '
+               'after generate() (quick tier: every third accepted stock) the same archetypes, shares, floor areas and digest of the '
+               'initial state; for %d '
+               'members (one inside the tolerance, one of 17 .. 24 rows, one with zero / ulp fractions%s) the keyword, '
+               'file, `simulate param` (thorough: and `simulate model`) routes write byte-identical EPW files'
+               % (len(sims), '' if quick else ', every third of the rest'), mismatches=bad, branches=branches)
+
+
 # ----------------------------------------------------------------------------- entry point
 def run(chk):
     sys.path.insert(0, os.path.join(core.VERIF, 'harness'))
@@ -1485,6 +1737,7 @@ def run(chk):
         tie_dict(chk, uwg, kinds, xtab)
         tie_routes(chk, uwg, kinds, xtab)
         tie_zone_names(chk, uwg, xtab)
+        tie_stocks(chk, uwg, xtab)
     else:
         chk.notes.append('generators for the dictionary/route ties need a fully recognised table; skipped')
     chk.assumptions += [
